@@ -359,8 +359,21 @@ func (s *synth) declStruct() string {
 	nf := s.r.intn(6)
 	fmt.Fprintf(&s.b, "type %s struct {\n", name)
 	if s.p.Embedded && len(byValue) > 0 && s.r.chance(1, 5) {
-		fmt.Fprintf(&s.b, "\t%s\n", pick(s.r, byValue))
+		if s.r.chance(1, 3) {
+			// an option-only json tag: encoding/json (and the analysis) still flatten the embedded struct
+			fmt.Fprintf(&s.b, "\t%s `json:\",omitempty\"`\n", pick(s.r, byValue))
+			s.tag("embedded-struct-option-only-tag")
+		} else {
+			fmt.Fprintf(&s.b, "\t%s\n", pick(s.r, byValue))
+		}
 		s.tag("embedded-struct")
+	} else if s.p.Embedded && s.r.chance(1, 8) {
+		// an embedded struct whose type is unexported: its exported fields are promoted all the same
+		s.n++
+		base := fmt.Sprintf("base%d", s.n)
+		fmt.Fprintf(&s.o, "type %s struct {\n\tP%s int\n\tQ%s string `json:\"q_%s\"`\n\thidden%s bool\n}\n\n", base, base, base, base, base)
+		fmt.Fprintf(&s.b, "\t%s\n", base)
+		s.tag("embedded-unexported-struct")
 	}
 	for i := 0; i < nf; i++ {
 		// field names are unique across structs, so that flattening an embedded struct never shadows a field
